@@ -21,6 +21,10 @@ Cases ==
   \cup UNION {{<<a, <<>>, v>> : v \in (0..24) \cup (2036..2050) \cup {4000}} : a \in {"rawext.new_raw", "rawext.set_payload"}}
   \cup UNION {{<<a, <<>>, v>> : v \in (0..46) \cup {100, 255, 256}} : a \in {"ipv4.set_options", "ipv4options.try_from"}}
   \cup UNION {{<<a, <<>>, v>> : v \in {0, 1, 6, 254, 255, 256, 257, 300}} : a \in {"arp.new.hw", "arp.new.proto"}}
+  \cup UNION {{<<a, <<d>>, v>> : v \in {0, 1, 4, 6, 16, 254, 255, 256, 257, 300}} : a \in {"arp.set_hw_addrs", "arp.set_protocol_addrs"}, d \in {0, 1}}
+  \cup {<<"macsec.short_len.from_len", <<>>, v>> : v \in (0..70) \cup {255, 256, 319, 320, 65535, 65536, 65599, Huge}}
+  \cup UNION {{<<"ipv6.set_dscp", <<tc>>, v>> : v \in 0..63} \cup {<<"ipv6.set_ecn", <<tc>>, v>> : v \in 0..3} : tc \in {0, 255, 165, 90, 3, 252}}
+  \cup UNION {{<<"ipv4.payload_len", <<o>>, v>> : v \in {0, 1, 19, 20, 21, 59, 60, 61, 65535} \cup Around(20 + o)} : o \in {0, 4, 40}}
 
 VARIABLES api, ctx, v
 Init == \E c \in Cases : api = c[1] /\ ctx = c[2] /\ v = c[3]
@@ -29,7 +33,7 @@ Spec == Init /\ [][Next]_<<api, ctx, v>>
 
 \* the stated maximum is the true maximum: accepted <=> representable, and rejections name the limit
 AcceptIffFits == LET x == Expect(api, ctx, v) IN (x.ok => x.errs = {}) /\ (~x.ok => x.errs # {} /\ x.enc = -1)
-Monotone == (api \notin {"auth.new", "auth.set_raw_icv", "rawext.new_raw", "rawext.set_payload", "ipv4.set_options", "ipv4options.try_from", "macsec.set_payload_len"} /\ v > 0 /\ v < Huge)
+Monotone == (api \notin {"auth.new", "auth.set_raw_icv", "rawext.new_raw", "rawext.set_payload", "ipv4.set_options", "ipv4options.try_from", "macsec.set_payload_len", "macsec.short_len.from_len", "ipv4.payload_len", "arp.set_hw_addrs", "arp.set_protocol_addrs"} /\ v > 0 /\ v < Huge)
               => (Expect(api, ctx, v).ok => Expect(api, ctx, v - 1).ok)
 Emit == PrintT(<<"FIELD", ToJson([api |-> api, ctx |-> ctx, v |-> v])>>)
 ====
